@@ -70,16 +70,16 @@ Proof.
   rewrite MA. cbn [bind fst snd]. rewrite mk_bin_ok by (rewrite Hae; reflexivity). cbn [unwrap bind operand_store].
   rewrite Hb1.
   (* the two loads *)
-  destruct (exec_load_frame s st 38%N (8 * Z.of_nat n) a_e A n d1 He ltac:(lia) ltac:(lia) eq_refl (DA st He) HA M1 R1)
+  destruct (exec_load_frame s st 70%N (8 * Z.of_nat n) a_e A n d1 He ltac:(lia) ltac:(lia) eq_refl (DA st He) HA M1 R1)
     as (st1 & E1 & He1 & G1 & F1 & Mm1).
   assert (DA2 : den (st_env st1) (EBin Add a_e (expr_const (8 * Z.of_nat n / 8) 64)) = Ok (mkc 64 (A + Z.of_nat n))).
   { rewrite (den_bin _ Add _ _ 64 A (U 64 (8 * Z.of_nat n / 8)) (DA st1 He1)) by (apply den_const; lia).
     cbn [sp_bin]. unfold s_add, U. replace (8 * Z.of_nat n / 8) with (Z.of_nat n) by (symmetry; rewrite Z.mul_comm; apply Z.div_mul; lia).
     f_equal. f_equal. rewrite (Z.mod_small (Z.of_nat n)) by lia. apply Z.mod_small. lia. }
   assert (M2' : forall x, In x (addr_range (A + Z.of_nat n) n) -> bm_get (st_mem st1) x <> None) by (rewrite Mm1; exact M2).
-  destruct (exec_load_frame s st1 39%N (8 * Z.of_nat n) _ (A + Z.of_nat n) n d2 He1 ltac:(lia) ltac:(lia) eq_refl DA2 ltac:(lia) M2' R2)
+  destruct (exec_load_frame s st1 71%N (8 * Z.of_nat n) _ (A + Z.of_nat n) n d2 He1 ltac:(lia) ltac:(lia) eq_refl DA2 ltac:(lia) M2' R2)
     as (st2 & E2 & He2 & G2 & F2 & Mm2).
-  assert (G1' : env_get (st_env st2) (38%N, None) = Some (mkc (8 * Z.of_nat n) d1)) by (rewrite F2 by congruence; exact G1).
+  assert (G1' : env_get (st_env st2) (70%N, None) = Some (mkc (8 * Z.of_nat n) d1)) by (rewrite F2 by congruence; exact G1).
   (* destination 1 *)
   assert (Dt0 : den (st_env st2) (EScalar (s_temp0 (8 * Z.of_nat n))) = Ok (mkc (8 * Z.of_nat n) d1))
     by (apply den_scalar_get; [exact G1'|reflexivity]).
